@@ -489,8 +489,18 @@ type SpecDB struct {
 	GlobalFacts map[string][]SExpr
 	GlobalInits []*GlobalInit
 	MethodSets  []*MethodSetDecl
+	CallerDecls []*CallersDecl
 	Defines map[string]*PredDef // spec functions with a definition, also emitted as SMT define-fun
 	DefineOrder []string
+}
+
+// CallersDecl pins the complete set of functions of this module (tests
+// excluded) that contain a static call to Callee.
+type CallersDecl struct {
+	Callee  string // qualified function name, e.g. filippo.io/age/plugin.NewIdentity
+	Callers []string
+	Props   []string
+	Src     string
 }
 
 // MethodSetDecl pins the complete method set of a pointer type.
@@ -741,6 +751,23 @@ func (db *SpecDB) LoadSpecFile(path, pkgPath string, trusted bool) error {
 				}
 			}
 			db.SpecFns[name] = &SpecFn{Name: name, Params: ps, Result: strings.TrimSpace(rest[k+1:])}
+		case "callers":
+			// callers <qualified callee> only f1, f2 [tags] : the functions of this
+			// module (tests excluded) that call the callee, as full function
+			// names; "none" for an empty list
+			body, tags := splitTags(rest)
+			k := strings.Index(body, " only ")
+			if k < 0 {
+				return fail(fmt.Errorf("callers <callee> only f1, f2"))
+			}
+			cd := &CallersDecl{Callee: strings.TrimSpace(body[:k]), Props: tags, Src: src}
+			for _, m := range strings.Split(body[k+6:], ",") {
+				if m = strings.TrimSpace(m); m != "" && m != "none" {
+					cd.Callers = append(cd.Callers, m)
+				}
+			}
+			sort.Strings(cd.Callers)
+			db.CallerDecls = append(db.CallerDecls, cd)
 		case "methodset":
 			// methodset (*T) m1, m2 [tags] : the complete method set of *T.
 			// Callers that dispatch on optional interfaces (io.Copy looks for
